@@ -118,7 +118,8 @@ impl WalArchiver {
                         .and_then(|s| s.strip_suffix(".log"))
                     {
                         if let Ok(id) = num.parse::<u64>() {
-                            if id < keep_from_log_id {
+                            // only files named the way the WAL writer (and `archive_log`) names them
+                            if id < keep_from_log_id && file_name == format!("wal-{:05}.log", id) {
                                 results.push(self.archive_log(id));
                             }
                         }
